@@ -435,8 +435,8 @@ func (x *Exec) havocPlace(env *Env, m Expr, st *State, reach string) error {
 			var pt types.Type
 			if len(v.L) == 2 {
 				var tag int
-				if _, serr := fmt.Sscanf(v.L[0], "%d", &tag); serr == nil && tag > 0 && tag < len(x.eng.tagTypes) && isLiteral(v.L[0]) {
-					pt = x.eng.tagTypes[tag]
+				if _, serr := fmt.Sscanf(v.L[0], "%d", &tag); serr == nil && tag > 0 && isLiteral(v.L[0]) {
+					pt = x.eng.typeOfTag(tag)
 				}
 			} else if len(v.L) == 1 {
 				pt = v.Typ
